@@ -102,6 +102,17 @@ def jobs(tier):
                                 "timeout arguments (u64)", "initial state RUNNING/PAUSED", "tokens"],
                       bounds="NOPS=%d accumulated=%d" % (nops, k), timeout=900 if quick else 1400,
                       **dict(common, remove=SET_REMOVE)))
+    # concrete scripts (0 size, 1 timeout, 2 pause, 3 resume): same oracle, heap shape fixed
+    scripts = [("pr", (2, 3)), ("tpr", (1, 2, 3))] if quick else \
+              [("pr", (2, 3)), ("spr", (0, 2, 3)), ("tpr", (1, 2, 3)), ("prpr", (2, 3, 2, 3)), ("pstr", (2, 0, 1, 3)), ("tptr", (1, 2, 1, 3))]
+    for nm, ops in scripts:
+        for k in ((1,) if quick else (1, 2, 3)):
+            js.append(Job("C13.set.k%d.script_%s.arrive" % (k, nm), "l1/c13_set.c",
+                          defines=dict(SET_DEFS, K=k, NOPS=len(ops), VF_FINAL=0, VF_OPS="{%s}" % ",".join(map(str, ops))),
+                          unwind=max(k, len(ops)) + 3, unwindset=RECUR, fp=SET_FP,
+                          symbolic=["batch size arguments (size_t)", "timeout arguments (u64)", "tokens"],
+                          bounds="fixed script %s accumulated=%d" % (nm, k), timeout=900,
+                          **dict(common, remove=SET_REMOVE, mem_gb=24)))
     return js
 
 
